@@ -85,6 +85,26 @@ def faults(m, meta):
     except Exception:
         pass
     check(r, "draw-size-validation-fails")
+    # render arguments of an unrelated render class: rejected - and no data left un-finalized behind (kept alive here: the GC cannot help)
+    class Other(Renderable):
+        def _get_render_size_(self): return Size(1, 1)
+        def _render_(self, rd, ra): return Frame(0, 1, Size(1, 1), "x")
+    from term_image.renderable import ArgsNamespace as _NS, IncompatibleRenderArgsError as _IRA
+    class OtherArgs(_NS, render_cls=Other):
+        v: int = 0
+    for op in ("render", "draw", "iterator"):
+        r = Foo(3)
+        buf = io.StringIO(); old = sys.stdout; sys.stdout = buf
+        try:
+            try:
+                {"render": lambda: r.render(RenderArgs(Other)), "draw": lambda: r.draw(RenderArgs(Other), padding=ExactPadding()),
+                 "iterator": lambda: RenderIterator(r, RenderArgs(Other))}[op]()
+                problems.append({"scenario": f"{op} with render arguments of an unrelated class was accepted"})
+            except _IRA:
+                pass
+        finally:
+            sys.stdout = old
+        check(r, (op, "incompatible-render-args"))
     r = Foo(3); it = RenderIterator(r); it.close(); it.close(); check(r, "close-twice-before-first-frame")
     r = Foo(3); it = RenderIterator(r); list(it); check(r, "exhaust")
     r = Foo(3, fail_at=2); it = RenderIterator(r)
